@@ -1,0 +1,108 @@
+//go:build verif
+
+package lastgersync
+
+import (
+	"math/big"
+	"time"
+
+	"github.com/agglayer/aggkit/sync"
+	aggkittypes "github.com/agglayer/aggkit/types"
+	"github.com/ethereum/go-ethereum/common"
+)
+
+// Hooks for the verification harness of property C16 (/verif/harness/c16). Thin wrappers only.
+
+// VerifC16Processor gives the harness access to the real processor (its exported methods are ProcessBlock, Reorg,
+// GetLastProcessedBlock, GetFirstGERAfterL1InfoTreeIndex and the compatibility storage).
+type VerifC16Processor = processor
+
+// NewVerifC16Processor runs the migrations and opens the store exactly as New does.
+func NewVerifC16Processor(dbPath string) (*VerifC16Processor, error) {
+	return newProcessor(dbPath)
+}
+
+// VerifC16Close closes the database handle (simulated node stop).
+func VerifC16Close(p *VerifC16Processor) error {
+	return p.database.Close()
+}
+
+// VerifC16Row is one row of imported_global_exit_root.
+type VerifC16Row struct {
+	BlockNum        uint64
+	GlobalExitRoot  common.Hash
+	L1InfoTreeIndex uint32
+}
+
+// VerifC16Rows dumps imported_global_exit_root ordered by block number.
+func VerifC16Rows(p *VerifC16Processor) ([]VerifC16Row, error) {
+	rows, err := p.database.Query(
+		`SELECT block_num, global_exit_root, l1_info_tree_index FROM imported_global_exit_root ORDER BY block_num ASC;`)
+	if err != nil {
+		return nil, err
+	}
+	defer rows.Close()
+	var res []VerifC16Row
+	for rows.Next() {
+		var (
+			r   VerifC16Row
+			ger string
+		)
+		if err := rows.Scan(&r.BlockNum, &ger, &r.L1InfoTreeIndex); err != nil {
+			return nil, err
+		}
+		r.GlobalExitRoot = common.HexToHash(ger)
+		res = append(res, r)
+	}
+	return res, rows.Err()
+}
+
+// VerifC16Blocks dumps the block table ordered by block number.
+func VerifC16Blocks(p *VerifC16Processor) ([]uint64, error) {
+	rows, err := p.database.Query(`SELECT num FROM block ORDER BY num ASC;`)
+	if err != nil {
+		return nil, err
+	}
+	defer rows.Close()
+	res := []uint64{}
+	for rows.Next() {
+		var n uint64
+		if err := rows.Scan(&n); err != nil {
+			return nil, err
+		}
+		res = append(res, n)
+	}
+	return res, rows.Err()
+}
+
+// NewVerifC16DownloaderPP builds the real PP downloader (same call as in New).
+func NewVerifC16DownloaderPP(
+	l2Client aggkittypes.BaseEthereumClienter,
+	l2GERAddr common.Address,
+	l1InfoTreeSync L1InfoTreeQuerier,
+	p *VerifC16Processor,
+	rh *sync.RetryHandler,
+	blockFinality *big.Int,
+	waitForNewBlocksPeriod time.Duration,
+) (sync.Downloader, error) {
+	return newDownloaderPP(l2Client, l2GERAddr, l1InfoTreeSync, p, rh, blockFinality, waitForNewBlocksPeriod)
+}
+
+// VerifC16ReorgDetectorID is the subscription id the driver is created with in New.
+const VerifC16ReorgDetectorID = reorgDetectorID
+
+// VerifC16EventFields exposes the fields of a downloaded event (the Event type has exported fields, this only
+// spares the harness the type switch on `any`).
+func VerifC16EventFields(ev any) (isGEREvent bool, isRemove bool, ger common.Hash, index uint32, ok bool) {
+	e, isEvent := ev.(*Event)
+	if !isEvent {
+		return false, false, common.Hash{}, 0, false
+	}
+	switch {
+	case e.GERInfo != nil:
+		return false, false, e.GERInfo.GlobalExitRoot, e.GERInfo.L1InfoTreeIndex, true
+	case e.GEREvent != nil:
+		return true, e.GEREvent.IsRemove, e.GEREvent.GlobalExitRoot, e.GEREvent.L1InfoTreeIndex, true
+	}
+	return false, false, common.Hash{}, 0, false
+}
